@@ -70,6 +70,18 @@ def fr(x):
 
 
 def rand_col(rng, card, mode):
+    if card > 16 and mode != "det":
+        # many states: dyadic column over 2^14, every entry positive (or some exact zeros)
+        den = 2 ** 14
+        parts = [0 if (mode == "zeros" and rng.random() < 0.1) else 1 for _ in range(card)]
+        left = den - sum(parts)
+        while left > 0:
+            k = rng.randrange(card)
+            add = min(left, rng.randint(1, 256))
+            if parts[k] or mode != "zeros":
+                parts[k] += add
+                left -= add
+        return [Fraction(x, den) for x in parts]
     if mode == "det":
         k = rng.randrange(card)
         return [Fraction(int(i == k)) for i in range(card)]
